@@ -482,6 +482,24 @@ func init() {
 					}
 				})
 			}
+			// a setter that is not the search setter never changes the query or the list - also under the option that allows
+			// setting the path of a URL with an opaque path, with values that contain the delimiters of other components
+			{
+				cfg := cfgFromDesc("allowPathNonBase")
+				starts := []string{"mailto:alice@example.org?subject=hello", "data:text/plain,x?a=1#f", "sc:opaque?q", "http://h/p?x=1"}
+				vals := []string{"bob@example.org?cc=carol", "x#frag", "?", "a?b#c", "/p?q", "", "y"}
+				c.Pool.Run(len(starts)*len(vals)*2, func(d *Driver, i int) {
+					st, v := starts[i%len(starts)], vals[i/len(starts)%len(vals)]
+					ops := []Op{{K: "T"}, {K: "s", W: 6, A: v}, {K: "q", A: "subject"}, {K: "a", A: "z", B: "1"}}
+					if i/(len(starts)*len(vals)) == 1 {
+						ops = []Op{{K: "s", W: 6, A: v}, {K: "q", A: "a"}, {K: "s", W: 8, A: v}, {K: "q", A: "a"}}
+					}
+					hc := histCase{cfg, nil, st, ops, "other-setters-keep-the-query", i}
+					if h, _, _ := c.cmpHist(d, cfg, nil, st, ops, allButVerrs, "other-setters-keep-the-query", i); h != nil {
+						c12Replay(c, hc)
+					}
+				})
+			}
 			// the empty pair: under skip-equals-for-empty-value a pair ("","") serializes to nothing, so the list can be non-empty
 			// while the query is null or empty; clearing the query must still empty the list, and a later mutation must not
 			// bring the pair back
@@ -507,7 +525,7 @@ func init() {
 				})
 			}
 			// under the diagnostics options a setter may stop at a validation error: URL and list must agree then too
-			for _, n := range []string{"fail", "report", "fail+report", "singlePct+lax", "specialAdd", "skipEq", "collapse+skipDrive", "queryC+squeryA"} {
+			for _, n := range []string{"fail", "report", "fail+report", "singlePct+lax", "specialAdd", "skipEq", "collapse+skipDrive", "queryC+squeryA", "allowPathNonBase", "allowPathNonBase+skipTrailSlash"} {
 				cfg := cfgFromDesc(n)
 				famHist(c, cfg, 4000*c.Scale, 8, "ppqqqss", false, allButVerrs, "sp+setsearch+setters:"+n, func(d *Driver, hc histCase, h *implHist, steps []Step, start Obs) {
 					c12Replay(c, hc)
